@@ -77,6 +77,8 @@ func C03(c *Ctx) {
 
 func C10(c *Ctx) {
 	R9SQLSchema(c)
+	R9ScanWidth(c)
+	R9NameIdentity(c)
 	R9AckOrder(c)
 	R8IDWidth(c)
 }
@@ -93,6 +95,8 @@ func C02(c *Ctx) {
 func C08(c *Ctx) {
 	R8IDWidth(c)
 	R8Pivot(c)
+	// the relayed callback is gated by the child's own outstanding tasks: they must be recorded for pivot children too
+	R6Issue(c)
 }
 
 func C05(c *Ctx) {
